@@ -150,6 +150,30 @@ func c10Battery(env *core.Env, cc *c10Coll) {
 	for _, e := range []string{"$this", "$this.take(1)", "iif(true, $this)", "$this.skip(0)", "$this.where(true)", "$this.first()", "$this.select($this)"} {
 		expectItems("select-identity", "%c.select("+e+")", orEmpty(cc.C))
 	}
+	// projections that hand on a prefix of the caller's own collection (a slice that still has spare capacity behind
+	// it): the result is the concatenation, and %c reads afterwards as it did before
+	if n >= 2 && n <= 12 {
+		env.Cover("select-alias")
+		snap := append(system.Collection(nil), cc.C...)
+		var w1, w2, w3 system.Collection
+		for range snap {
+			w1 = append(w1, snap[0])
+			w2 = append(w2, snap[:n-1]...)
+			w3 = append(w3, snap[1:]...)
+		}
+		expectItems("select-alias", "%c.select(%c.take(1))", w1)
+		expectItems("select-alias/after", "%c.skip(1)", snap[1:])
+		expectItems("select-alias", "%c.select(%c.take(%c.count() - 1))", w2)
+		expectItems("select-alias/after", "%c", snap)
+		expectItems("select-alias", "%c.select(%c.first())", w1)
+		expectItems("select-alias", "%c.select(%c.skip(1))", w3)
+		expectItems("select-alias/after", "%c.take(1).select(%c.take(1)).select(%c)", snap)
+		expectItems("select-alias/after", "%c.last()", snap[n-1:])
+		if ok, why := sameItems(cc.C, snap); !ok {
+			fail("select-alias/caller-collection-changed", "the collection bound to %%c differs after `%%c.select(%%c.take(k))`: %s", why)
+			copy(cc.C, snap)
+		}
+	}
 	if e1, e2 := c10Eval(env, "%c.exists($this)", cv), c10Eval(env, "%c.where($this).exists()", cv); !e1.IsPanic() && !e2.IsPanic() && !(e1.IsError() && e2.IsError()) && !fx.Same(e1, e2) {
 		env.Violatef("C10/exists-criterion/differs-from-where-exists", "%s: `%%c.exists($this)` = %s but `%%c.where($this).exists()` = %s", cc.Desc, trunc(e1.Short(), 80), trunc(e2.Short(), 80))
 	}
